@@ -366,6 +366,11 @@ def equal(a, b, flags=None, deep=True):
     except Exception:
         de = d
     stage = "expand"
+    # a clearly non-zero value of the difference at a random rational point proves the two expressions are different
+    # functions; only when no such point is found is the (expensive) simplifier asked to prove equality
+    nz0 = numeric_nonzero(de, trials=3, flags=flags)
+    if nz0 is True:
+        return "differ", stage + "+numeric"
     if deep:
         for name, fn in (("cancel", sp.cancel), ("simplify", sp.simplify)):
             try:
